@@ -13,37 +13,53 @@ import tgen
 PROP = "C15"
 LEVEL = "proof"
 GEN_UNITS = []
-COQ_TARGETS = ["Props/C15.vo", "Model/C15Inst.vo", "Model/C08Inst.vo", "Model/Harness.vo"]
+COQ_TARGETS = ["Props/C15.vo", "Model/C15Inst.vo", "Model/C15K.vo", "Model/C08Inst.vo", "Model/Harness.vo"]
 THEOREM_FILES = ["Props/C15.v"]
 COQ_IMPORTS = ("From Coq Require Import List ZArith QArith Qcanon Bool.\n"
-               "From PV Require Import Base.Index Np.Array Model.Repr Model.Harness Model.C15Sym Model.C15Impl Model.C15Inst Model.C08Inst.\n")
+               "From PV Require Import Base.Index Np.Array Model.Repr Model.Harness Model.C15Sym Model.C15Impl Model.C15K Model.C15Inst Model.C08Inst.\n")
 RULE = ("shapes (2,3,3), (3,2,3,2), (2,3,3,2), (3,2,2,3), (2,2,2,2), (3,3,3), (2,2), (3,3), (2,2,3) ...; EVERY choice of one group "
         "(>= 2 modes of equal size) or two disjoint groups of equal length (mode sizes may differ BETWEEN groups), proper subsets "
         "included, group members also listed out of order; non-symmetric integer data, exactly symmetric data, almost-symmetric "
         "data (one entry changed by 1) and NEARLY symmetric float data (symmetric integers >= 1 with single entries moved by "
-        "2^-20, i.e. inside numpy's allclose tolerance); both versions; with/without details; every symmetrised result must pass "
-        "both versions of the symmetry test; non-trivial = data not symmetric in the groups or the group is a proper subset")
-CORRESPONDENCE_ONLY = ["tensor.symmetrize OLD version (explicit average over all combinations of mode rearrangements + max-fix): the transliteration "
-                       "impl_sym_old is compared EXACTLY with spec_sym on every generated input (statement kept as C15_sym_old_stmt)",
-                       "ktensor.symmetrize: identical factors and symmetry of the denoted array evaluated on pyttb's result (then symmetric by "
-                       "theorem C15_kruskal_sym); a symmetric input (identical factors, weights of either sign) keeps its value: evaluated per case",
-                       "the tabulate/den round trip between groups in the executable instances (q_sym_new_d) is Np.Array.den_tabulate, not restated"]
+        "2^-20 absolute or by 2^-15 / 2^-16 / 2^-17 / 2^-40 relative: both sides of numpy's allclose tolerance); both versions; "
+        "with/without details; every symmetrised result must pass both versions of the symmetry test. Wave 3: 1-element groups; "
+        "data invariant only under a proper subgroup (cyclic / even / one exchange) of a group of >= 3 modes; tensors built from "
+        "C-ordered or strided arrays, C-ordered / non-contiguous arrays assigned to .data, tensors that come out of permute(); an "
+        "earlier call with other groups on another tensor of the same shape and a second call on the same object; grps as 1 x k "
+        "2-D array, int32, non-contiguous view; all values scaled by 2^-30 ... 2^40; chains symmetrize -> permute -> issymmetric "
+        "(mapped and other groups) -> symmetrize; Kruskal tensors of orders 2-5 with identical factors, with factors differing "
+        "by column signs / scalings (several negative columns and weights), with arbitrary factors, C-ordered factors, "
+        "normalize() before, symmetrize twice; non-trivial = data not symmetric in the groups or the group is a proper subset")
+CORRESPONDENCE_ONLY = ["ktensor.symmetrize on factors that are NOT identical but have proportional columns (stored with scrambled column signs / "
+                       "scalings): that pyttb's normalize('all') turns them into factors agreeing up to column signs — the hypothesis of theorems "
+                       "C15_ksym_keeps / C15_ksym_keeps_rational — is evaluated on pyttb's own normalize('all') result per case (for IDENTICAL "
+                       "factors it is a theorem: C15_ksym_identical_input_keeps composes the body with C08's normalize model); the tie of "
+                       "pyttb's normalize to its model k_normalize is C08's correspondence, the tie of the body is the per-case comparison here",
+                       "the tabulate/den round trip between groups in the executable instances (q_sym_new_d, q_sym_old_d) is "
+                       "Np.Array.den_tabulate, not restated"]
 ASSUMPTIONS = ["the average is taken in exact rational arithmetic; pyttb's float result must lie within 1e-9 relative",
-               "old-version symmetrize's max-fix is modelled with an exact max; on an exactly symmetric average it is the identity"]
+               "old-version symmetrize's max-fix is modelled with a max that satisfies max a a = a (theorem C15_sym_old holds for any such max)",
+               "C15_ksym_keeps assumes of the oracle 'x < 0' only: a sum of squares is not negative, and if minus a sum of squares is not "
+               "negative either every term is zero (both proved for the exact test over Qc: C15_ksym_keeps_rational has no assumption)",
+               "scaled inputs: pyttb's result is divided by the power of two exactly (symmetrising is homogeneous) before it is compared"]
 EXPLANATION = ("Theorems (all shapes, groups, values of a commutative ring; characteristic 0 where an average is inverted): rearranging a list "
                "permutes its rearrangements (orbit argument) => the average is symmetric in every group and symmetrising is idempotent; "
                "the boolean test (adjacent exchanges, in-bounds) <=> invariance under every within-group rearrangement; pyttb's NEW "
-               "symmetrize (class average incl. the short-cut) = spec at every in-bounds subscript (orbit counting); NEW and OLD "
-               "issymmetric = the spec test; Kruskal tensors with identical factors are symmetric. All four transliterations are "
-               "additionally executed and compared exactly with the spec on every generated input, and pyttb's results with the spec.")
+               "symmetrize (class average incl. the short-cut) = spec at every in-bounds subscript (orbit counting); pyttb's OLD symmetrize "
+               "(explicit average over the table of all combinations of within-group mode rearrangements, then the max-fix loop) = spec "
+               "at every N-way subscript, hence the two versions agree; NEW and OLD issymmetric = the spec test; Kruskal tensors with "
+               "identical factors are symmetric; the body of ktensor.symmetrize always returns identical factors and keeps the value of "
+               "a tensor whose factors agree up to column signs. All transliterations are additionally executed and compared with the "
+               "spec / with pyttb on every generated input.")
 
 
 # ----------------------------------------------------------------------------------------------------------------
-def group_choices(shape):
-    """every single group (>=2 modes, equal sizes) and every pair of disjoint groups of equal length"""
+def group_choices(shape, ones=False):
+    """every single group (>=2 modes, equal sizes) and every pair of disjoint groups of equal length;
+    ones=True: also the 1-element groups [[m]] and pairs [[a],[b]] of them"""
     N = len(shape)
     singles = []
-    for k in range(2, N + 1):
+    for k in range(1 if ones else 2, N + 1):
         for g in itertools.combinations(range(N), k):
             if len({shape[m] for m in g}) == 1:
                 singles.append(list(g))
@@ -92,11 +108,89 @@ BUMP = Fraction(1, 2 ** 20)     # well inside np.allclose's default tolerance fo
 
 
 def full_data(a):
-    """the exact input values: integers, plus 2^-20 on the entries listed in a['bump'] (nearly symmetric float data)"""
+    """the exact (unscaled) input values: integers; on the entries listed in a['bump'] plus 2^-bumpk (absolute) or
+    plus |value| * 2^-bumpk (a['bumprel']: relative, to sit just inside / outside numpy.allclose's rtol = 1e-5)"""
     d = [Fraction(x) for x in a["data"]]
+    step = Fraction(1, 2 ** a.get("bumpk", 20))
     for k in a.get("bump") or []:
-        d[k] += BUMP
+        d[k] += (abs(d[k]) if a.get("bumprel") else 1) * step
     return d
+
+
+def scale_of(a):
+    """the data handed to pyttb is full_data * 2^scale (exact in binary floating point); symmetrising is homogeneous, so
+    pyttb's result is multiplied by 2^-scale (exactly, in rational arithmetic) before it is compared with the model"""
+    return Fraction(2) ** a.get("scale", 0)
+
+
+def unscale(a, vals):
+    """finite observed values (ints / Fractions / 'n/d' texts) divided exactly by the scale"""
+    f = scale_of(a)
+    return [Fraction(x) / f for x in vals]
+
+
+def preimage(shape, data, perm):
+    """(shape0, data0) with tensor(data0).permute(perm) = tensor(data): result[i] = T0[j], j[perm[k]] = i[k] (pure python)"""
+    N = len(shape)
+    shape0 = [0] * N
+    for k in range(N):
+        shape0[perm[k]] = shape[k]
+    pos = {tuple(s_): k for k, s_ in enumerate(tgen.all_subs(shape))}
+    data0 = [data[pos[tuple(j[perm[k]] for k in range(N))]] for j in tgen.all_subs(shape0)]
+    return shape0, data0
+
+
+def subgroup_int(shape, data, g, kind, rng):
+    """integer data invariant under a PROPER subgroup of the rearrangements of the group g (cyclic rotations, the even
+    rearrangements, or one exchange) — in general not under all of them: SUM over the subgroup (pure python)"""
+    k = len(g)
+    if kind == "cyclic":
+        H = [tuple((t + r) % k for t in range(k)) for r in range(k)]
+    elif kind == "even":
+        H = [p for p in itertools.permutations(range(k))
+             if sum(1 for x in range(k) for y in range(x + 1, k) if p[x] > p[y]) % 2 == 0]
+    else:
+        x, y = rng.sample(range(k), 2)
+        sw = list(range(k))
+        sw[x], sw[y] = y, x
+        H = [tuple(range(k)), tuple(sw)]
+    subs = tgen.all_subs(shape)
+    pos = {tuple(s_): n for n, s_ in enumerate(subs)}
+    out = []
+    for s_ in subs:
+        tot = 0
+        for h in H:
+            t = list(s_)
+            for q in range(k):
+                t[g[q]] = s_[g[h[q]]]
+            tot += data[pos[tuple(t)]]
+        out.append(tot)
+    return out
+
+
+LAYOUTS = ["C", "Cnocopy", "assignC", "strided", "assignview"]
+
+
+def variant(rng, shape, big):
+    """how the pyttb tensor is built / what happened before: memory layout, a permute() history, an earlier call with other
+    groups on another tensor of the same shape, the form of the grps argument, a power-of-two scale of all values"""
+    v = {}
+    r = rng.random()
+    if r < 0.35:
+        v["layout"] = rng.choice(LAYOUTS)
+    elif r < 0.5 and len(shape) >= 2:
+        p = list(range(len(shape)))
+        while p == sorted(p):
+            rng.shuffle(p)
+        v["via_perm"] = p
+    if rng.random() < 0.3:
+        others = group_choices(shape, ones=True)
+        v["prior"] = [rng.choice(others) for _ in range(rng.choice([1, 2]))]
+    if rng.random() < 0.3:
+        v["grpform"] = rng.choice(["2d", "i32", "strided"])
+    if rng.random() < 0.25:
+        v["scale"] = rng.choice([-30, -24, 24, 40])
+    return v
 
 
 def gen_cases(rng, tier):
@@ -165,10 +259,157 @@ def gen_cases(rng, tier):
                     f = [[[rng.randint(-3, 3) for _ in range(R)] for _ in range(m)] for _ in range(N)]
                     w = [rng.choice([-2, -1, 1, 2, 3]) for _ in range(R)]
                 cases.append(Case("ksymmetrize", {"w": w, "f": f, "kind": kind}, True))
+    cases += gen_w3(rng, big)
+    rng.shuffle(cases)          # spreads the expensive (rational) cases evenly over the coqc shards
+    return cases
+
+
+def map_groups(groups, perm):
+    """the groups of S expressed in the mode numbering of S.permute(perm) (mode k of the result is mode perm[k] of S)"""
+    return [[perm.index(m) for m in g] for g in groups]
+
+
+def gen_w3(rng, big):
+    """wave 3: memory layouts, permute() / earlier-call histories, forms of the grps argument, power-of-two scales, 1-element
+    groups, nearly symmetric data on BOTH sides of numpy.allclose's tolerance, data invariant under a proper subgroup of the
+    rearrangements only, chains symmetrize -> permute -> issymmetric / symmetrize, Kruskal tensors whose factors differ by
+    column signs / scalings, C-ordered factors, normalize() before and a second symmetrize() after"""
+    cases = []
+    shapes = [(2, 3, 3), (3, 3, 3), (2, 2, 2, 2), (2, 3, 3, 2), (3, 3), (2, 2, 3), (3, 2, 3, 2)]
+    if big:
+        shapes += [(2, 4, 4), (3, 3, 3, 2), (2, 2, 2, 2, 2), (4, 4), (3, 2, 2, 3)]
+    combos = [(None, False), (1, False), (None, True), (1, True)]
+    for shape in shapes:
+        n = math.prod(shape)
+        choices = group_choices(shape, ones=True)
+        picks = choices * 2 if big else rng.sample(choices, min(len(choices), 5))
+        for groups0 in picks:
+            proper = sum(len(g) for g in groups0) < len(shape) or len(groups0) > 1
+            groups = groups0
+            if rng.random() < 0.5:
+                groups = [rng.sample(g, len(g)) for g in groups0]
+                rng.shuffle(groups)
+            v = {}
+            while not v:
+                v = variant(rng, shape, big)
+            base = {"shape": list(shape), "grps": groups, "w3": 1}
+            data = [rng.randint(-4, 5) for _ in range(n)]
+            sdata = sym_int(shape, [rng.randint(-2, 3) for _ in range(n)], groups)
+            adata = list(sdata)
+            adata[rng.randrange(n)] += 1
+            # nearly symmetric, the deviation RELATIVE to the entry: 2^-17 is inside numpy.allclose's rtol = 1e-5, 2^-16 and
+            # 2^-15 are outside, 2^-40 is far inside
+            ndata = sym_int(shape, [rng.randint(1, 3) for _ in range(n)], groups)
+            bump = sorted(rng.sample(range(n), rng.choice([1, 1, 2])))
+            near = {"data": ndata, "bump": bump, "bumpk": rng.choice([15, 16, 17, 17, 40]), "bumprel": True}
+            for version in (None, 1):
+                cases.append(Case("symmetrize", dict(base, data=data, version=version, **v), True))
+                cases.append(Case("symmetrize", dict(base, version=version, **near, **v), True))
+            if rng.random() < 0.4:
+                cases.append(Case("symmetrize", dict(base, data=sdata, version=rng.choice([None, 1]), **v), proper))
+            for d in ({"data": data}, {"data": sdata}, {"data": adata}, near):
+                for version, details in rng.sample(combos, 4 if big else 2):
+                    cases.append(Case("issymmetric", dict(base, version=version, details=details, **d, **v), True))
+            # data invariant under a proper subgroup of the rearrangements of a group of >= 3 modes
+            for gi, g in enumerate(groups):
+                if len(g) < 3:
+                    continue
+                for kind in ("cyclic", "even", "swap"):
+                    hd = subgroup_int(shape, [rng.randint(-3, 3) for _ in range(n)], g, kind, rng)
+                    for og in groups[:gi] + groups[gi + 1:]:
+                        hd = sym_int(shape, hd, [og])
+                    for version, details in rng.sample(combos, 4 if big else 3):
+                        vv = v if rng.random() < 0.5 else {}
+                        cases.append(Case("issymmetric", dict(base, data=hd, version=version, details=details, sub=kind, **vv),
+                                          not is_sym(shape, hd, groups)))
+            # chain: S = T.symmetrize(G) (data multiplied so that the averages are integers); P = S.permute(p);
+            # P.issymmetric(G mapped to P's numbering) must answer True, other groups as the model says; P.symmetrize keeps P
+            if len(shape) >= 2 and any(len(g) >= 2 for g in groups):
+                perm = list(range(len(shape)))
+                while perm == sorted(perm):
+                    rng.shuffle(perm)
+                mult = math.prod(math.factorial(len(g)) for g in groups)
+                pshape = [shape[perm[k]] for k in range(len(shape))]
+                mapped = map_groups(groups, perm)
+                other = rng.choice(group_choices(pshape, ones=True))
+                for tg in (mapped, other):
+                    cases.append(Case("chain", {"shape": list(shape), "data": [mult * x for x in data], "grps": groups,
+                                                "version": rng.choice([None, 1]), "perm": perm, "tgrps": tg,
+                                                "tversion": rng.choice([None, 1]), "expect_true": tg is mapped}, True))
+    # one more shape for the subgroup-invariant data only (a 3-mode group with mode size 3 inside a 4-way tensor)
+    for shape, g in (((2, 3, 3, 3), [1, 2, 3]), ((3, 3, 2, 3), [3, 0, 1])):
+        n = math.prod(shape)
+        for kind in ("cyclic", "even", "swap"):
+            hd = subgroup_int(shape, [rng.randint(-3, 3) for _ in range(n)], g, kind, rng)
+            for version, details in combos:
+                cases.append(Case("issymmetric", {"shape": list(shape), "data": hd, "grps": [g], "version": version,
+                                                  "details": details, "sub": kind}, not is_sym(shape, hd, [g])))
+    # Kruskal: the dense value is symmetric but the stored factors differ by column signs / scalings (several negative
+    # columns and weights, orders 2-5); C-ordered factors; normalize() before; symmetrize() a second time
+    for m, N in ((2, 2), (3, 2), (2, 3), (3, 3), (2, 4), (2, 5)) + (((3, 4),) if big else ()):
+        for R in (1, 2, 3):
+            kinds = ("scrambled", "scrambled", "symmetric", "random") if big else ("scrambled", rng.choice(["symmetric", "random", "scrambled"]))
+            for kind in kinds:
+                A = [[rng.randint(-3, 3) for _ in range(R)] for _ in range(m)]
+                if kind == "random":
+                    f = [[[rng.randint(-3, 3) for _ in range(R)] for _ in range(m)] for _ in range(N)]
+                elif kind == "symmetric":
+                    if R > 1 and rng.random() < 0.3:
+                        z = rng.randrange(R)
+                        A = [[0 if r == z else x for r, x in enumerate(row)] for row in A]
+                    f = [A for _ in range(N)]
+                else:
+                    cs = [[rng.choice([1, -1, -1, 2, -2]) for _ in range(R)] for _ in range(N)]
+                    f = [[[x * cs[k][r] for r, x in enumerate(row)] for row in A] for k in range(N)]
+                w = [rng.choice([-3, -2, -1, 1, 2, 3]) for _ in range(R)]
+                arg = {"w": w, "f": f, "kind": kind, "klayout": rng.choice(["F", "C", "assignC", "assignC"]),
+                       "pre": rng.choice([None, None, "all", 0, "plain"])}
+                cases.append(Case("ksymmetrize", arg, True))
     return cases
 
 
 # ----------------------------------------------------------------------------------------------------------------
+def mk_grps(np, groups, form=None):
+    """the grps argument: one group as a 1-D array, several as the rows of a 2-D array (pyttb's documented forms);
+    form: '2d' (one group as a 1 x k array), 'i32' (dtype int32), 'strided' (a non-contiguous view)"""
+    if groups is None:
+        return None
+    dt = np.int32 if form == "i32" else np.int64
+    arr = np.array(groups, dtype=dt)
+    if len(groups) == 1 and form != "2d":
+        arr = arr[0]
+    if form == "strided":
+        big = np.zeros(arr.shape[:-1] + (2 * arr.shape[-1],), dtype=dt)
+        big[..., ::2] = arr
+        arr = big[..., ::2]
+    return arr
+
+
+def build_tensor(ttb, np, a):
+    """the pyttb tensor holding full_data * 2^scale, built the way the case asks for"""
+    shape = a["shape"]
+    vals = [float(x * scale_of(a)) for x in full_data(a)]
+    if a.get("via_perm"):
+        s0, d0 = preimage(shape, vals, a["via_perm"])
+        return tgen.mk_tensor(ttb, np, s0, d0).permute(np.array(a["via_perm"]))
+    arr = tgen.np_dense(np, shape, vals)
+    lay = a.get("layout", "F")
+    pad = np.pad(arr, [(1, 2)] * len(shape), constant_values=99.0)
+    view = pad[tuple(slice(1, 1 + d) for d in shape)]
+    if lay == "C":
+        return ttb.tensor(np.ascontiguousarray(arr), copy=True)
+    if lay == "Cnocopy":
+        return ttb.tensor(np.ascontiguousarray(arr), copy=False)
+    if lay == "strided":
+        return ttb.tensor(view, copy=False)
+    T = tgen.mk_tensor(ttb, np, shape, vals)
+    if lay == "assignC":
+        T.data = np.ascontiguousarray(arr)
+    elif lay == "assignview":
+        T.data = np.ascontiguousarray(pad)[tuple(slice(1, 1 + d) for d in shape)]
+    return T
+
+
 def run_impl(c):
     import numpy as np
     import pyttb as ttb
@@ -176,18 +417,59 @@ def run_impl(c):
     try:
         if c.op == "ksymmetrize":
             R = len(a["w"])
-            K = ttb.ktensor([np.array(A, dtype=float).reshape((len(A), R)) for A in a["f"]], np.array(a["w"], dtype=float), copy=True)
+            fs = [np.array(A, dtype=float).reshape((len(A), R)) for A in a["f"]]
+            K = ttb.ktensor(fs, np.array(a["w"], dtype=float), copy=True)
+            lay = a.get("klayout", "F")
+            if lay == "C":
+                K = ttb.ktensor([np.ascontiguousarray(A) for A in fs], np.array(a["w"], dtype=float), copy=False)
+            elif lay == "assignC":
+                for n_ in range(len(fs)):
+                    K.factor_matrices[n_] = np.ascontiguousarray(fs[n_])
+            pre = a.get("pre")
+            if pre == "plain":
+                K.normalize()
+            elif pre is not None:
+                K.normalize(weight_factor=pre)
+            K1 = K.copy()
+            K1.normalize("all")          # the first step of symmetrize, observed separately (same deterministic routine)
             S = K.symmetrize()
-            return {"ok": tgen.obs_ktensor(np, S), "issym": bool(S.issymmetric())}
-        T = tgen.mk_tensor(ttb, np, a["shape"], [float(x) for x in full_data(a)])
-        grps = None if a["grps"] is None else (np.array(a["grps"][0]) if len(a["grps"]) == 1 else np.array(a["grps"]))
+            out = {"ok": tgen.obs_ktensor(np, S), "issym": bool(S.issymmetric()), "k1": tgen.obs_ktensor(np, K1)}
+            if "klayout" in a:
+                S2 = S.symmetrize()
+                out["again"] = tgen.obs_ktensor(np, S2)
+                out["issym2"] = bool(S2.issymmetric())
+            return out
+        if c.op == "chain":
+            T = tgen.mk_tensor(ttb, np, a["shape"], [float(x) for x in a["data"]])
+            S = T.symmetrize(mk_grps(np, a["grps"]), a["version"])
+            P = S.permute(np.array(a["perm"]))
+            tg = mk_grps(np, a["tgrps"])
+            r = bool(P.issymmetric(tg, a["tversion"]))
+            out = {"S": tgen.obs_dense(np, S), "P": tgen.obs_dense(np, P), "ok": r}
+            out["S3"] = tgen.obs_dense(np, P.symmetrize(tg, a["tversion"]))
+            return out
+        for pg in a.get("prior") or []:       # an earlier call with other groups on ANOTHER tensor of the same shape
+            U = tgen.mk_tensor(ttb, np, a["shape"], [float((7 * k + 3) % 11 - 5) for k in range(math.prod(a["shape"]))])
+            U.symmetrize(mk_grps(np, pg))
+            U.issymmetric(mk_grps(np, pg))
+            U.symmetrize(mk_grps(np, pg), 1)
+        T = build_tensor(ttb, np, a)
+        grps = mk_grps(np, a["grps"], a.get("grpform"))
         if c.op == "symmetrize":
             S = T.symmetrize(grps, a["version"]) if grps is not None else T.symmetrize(version=a["version"])
             S2 = S.copy().symmetrize(grps, a["version"]) if grps is not None else S.copy().symmetrize(version=a["version"])
             # "the result passes the symmetry test": both versions of the test, on a copy of the result
             t_new = bool(S.copy().issymmetric(grps)) if grps is not None else bool(S.copy().issymmetric())
             t_old = bool(S.copy().issymmetric(grps, 1)) if grps is not None else bool(S.copy().issymmetric(version=1))
-            return {"ok": tgen.obs_dense(np, S), "again": tgen.obs_dense(np, S2), "test_new": t_new, "test_old": t_old}
+            # a second call on the same object gives the same tensor again
+            Sr = T.symmetrize(grps, a["version"]) if grps is not None else T.symmetrize(version=a["version"])
+            out = {"ok": tgen.obs_dense(np, S), "again": tgen.obs_dense(np, S2), "test_new": t_new, "test_old": t_old,
+                   "repeat_same": bool(S.shape == Sr.shape and np.array_equal(S.data, Sr.data))}
+            # writing into the returned tensor must not change the receiver (an already symmetric receiver "keeps its value")
+            before = np.array(T.data, copy=True)
+            S.data[(0,) * S.data.ndim] += 1.0
+            out["receiver_intact"] = bool(np.array_equal(T.data, before))
+            return out
         if c.op == "issymmetric":
             r = T.issymmetric(grps, a["version"], a["details"])
             if a["details"] and isinstance(r, tuple):
@@ -204,7 +486,7 @@ def groups_of(a):
 
 
 def finite(vals):
-    return all(not isinstance(x, str) for x in vals)
+    return all(x not in ("nan", "inf", "-inf") for x in vals)
 
 
 def gb(x):
@@ -222,20 +504,60 @@ def coq_check(c, o):
         import props.c08 as c08
         O = c08.gqk(ob["weights"], ob["factors"])
         shp = gnlist([len(A) for A in a["f"]])
-        keep = f" && qk_den_close {shp} {c08.gqk(a['w'], a['f'])} O" if a["kind"] == "symmetric" else ""
+        # a tensor whose dense value is symmetric (identical factors, or factors differing by column signs / scalings) keeps it
+        keep = f" && qk_den_close {shp} {c08.gqk(a['w'], a['f'])} O" if a["kind"] in ("symmetric", "scrambled") else ""
+        again = ""
+        if "again" in o:
+            ob2 = o["again"]
+            if not (finite(ob2["weights"]) and all(finite(r) for A in ob2["factors"] for r in A)):
+                return "false"
+            # (identical factors make the denoted array symmetric by theorem C15_kruskal_sym: not re-evaluated for O2)
+            again = (f" && (let O2 := {c08.gqk(ob2['weights'], ob2['factors'])} in q_mats_identical (kfactors O2) && "
+                     f"qk_den_close {shp} O O2 && {gb(o['issym2'])})")
+        # the transliterated body of symmetrize (Model/C15K.v) applied to pyttb's own normalize("all") result reproduces pyttb's
+        # weights and factors; skipped when a sign test is decided by rounding (a column inner product that is zero up to 1e-6)
+        model = ""
+        k1 = o.get("k1")
+        if k1 and finite(k1["weights"]) and all(finite(r) for A in k1["factors"] for r in A):
+            f1 = [[[Fraction(x) for x in row] for row in A] for A in k1["factors"]]
+            dots = [sum(f1[0][x][j] * f1[n_][x][j] for x in range(len(f1[0]))) for n_ in range(1, len(f1)) for j in range(len(a["w"]))]
+            if all(abs(d) >= Fraction(1, 10 ** 6) for d in dots):
+                model = f" && q_k15_matches {c08.gqk(k1['weights'], k1['factors'])} O"
+            if a["kind"] in ("symmetric", "scrambled"):     # the hypothesis of theorem C15_ksym_keeps holds for the normalised input
+                model += f" && q_k15_signed_copies {c08.gqk(k1['weights'], k1['factors'])}"
         return (f"let O := {O} in q_mats_identical (kfactors O) && Nat.eqb (length (kfactors O)) {len(a['f'])} && "
-                f"nvec_eqb (kshape O) {shp} && q_k_symmetric {shp} O && {gb(o['issym'])}{keep}")
+                f"nvec_eqb (kshape O) {shp} && q_k_symmetric {shp} O && {gb(o['issym'])}{keep}{again}{model}")
+    if c.op == "chain":
+        if not all(finite(o[k]["data"]) for k in ("S", "P", "S3")):
+            return "false"
+        T = tgen.gqdense(a["shape"], a["data"])
+        S = tgen.gqdense(o["S"]["shape"], o["S"]["data"])
+        P = tgen.gqdense(o["P"]["shape"], o["P"]["data"])
+        S3 = tgen.gqdense(o["S3"]["shape"], o["S3"]["data"])
+        pshape = [a["shape"][m] for m in a["perm"]]
+        G, TG = gnmat(a["grps"]), gnmat(a["tgrps"])
+        exp = f" && {gb(o['ok'])} && q_same P S3" if a["expect_true"] else ""
+        # every step against the model applied to the previous OBSERVED state: S = spec average of T (integers, exact);
+        # P = S.permute(perm) entry by entry; the test on P as the spec test says (True for the mapped groups);
+        # P.symmetrize(tgrps) = the spec average of P (= P for the mapped groups)
+        return (f"let T := {T} in let S := {S} in let P := {P} in let S3 := {S3} in q_sym_matches T {G} S && q_issym S {G} && "
+                f"q_dense_eqb P (tabulate {gnlist(pshape)} (permuted (qden S) {gnlist(a['perm'])})) && "
+                f"Bool.eqb (q_issym P {TG}) {gb(o['ok'])} && q_sym_matches P {TG} S3{exp}")
     G = gnmat(groups_of(a))
     if c.op == "symmetrize":
         if not (finite(o["ok"]["data"]) and finite(o["again"]["data"])):
             return "false"
         T = tgen.gqdense(a["shape"], full_data(a))
-        O = tgen.gqdense(o["ok"]["shape"], o["ok"]["data"])
-        O2 = tgen.gqdense(o["again"]["shape"], o["again"]["data"])
+        O = tgen.gqdense(o["ok"]["shape"], unscale(a, o["ok"]["data"]))
+        O2 = tgen.gqdense(o["again"]["shape"], unscale(a, o["again"]["data"]))
         # pyttb's result = the spec average (exact rationals, 1e-9); both implementation models = the spec on this input;
-        # symmetrising again changes nothing; pyttb's result is EXACTLY symmetric (spec test) and passed both pyttb tests
-        return (f"let T := {T} in let O := {O} in q_sym_matches T {G} O && q_impls_agree T {G} && q_same O {O2} && "
-                f"q_sym_result_symmetric T {G} && q_issym O {G} && {gb(o['test_new'])} && {gb(o['test_old'])}")
+        # symmetrising again changes nothing; pyttb's result is EXACTLY symmetric (spec test) and passed both pyttb tests;
+        # a second call on the same object returned the same tensor
+        # (the two model-only comparisons are independent of how pyttb was driven: evaluated in the basic stream only)
+        models = "" if a.get("w3") else f"q_impls_agree T {G} && q_sym_result_symmetric T {G} && "
+        return (f"let T := {T} in let O := {O} in q_sym_matches T {G} O && {models}q_same O {O2} && "
+                f"q_issym O {G} && {gb(o['test_new'])} && {gb(o['test_old'])} && {gb(o.get('repeat_same', True))} && "
+                f"{gb(o.get('receiver_intact', True))}")
     if c.op == "issymmetric":
         extra = ""
         if a["details"] and "ndiffs" in o:
@@ -283,19 +605,53 @@ def oracle(c, o):
             return "factors of the symmetrised Kruskal tensor are not identical"
         if not o["issym"]:
             return "result does not pass ktensor.issymmetric"
-        if a["kind"] == "symmetric":        # a symmetric input keeps its value
-            def kden(w, f, i):
-                t = Fraction(0)
-                for r in range(len(w)):
-                    p_ = Fraction(w[r])
-                    for n_, A in enumerate(f):
-                        p_ *= Fraction(A[i[n_]][r])
-                    t += p_
-                return t
+        def kden(w, f, i):
+            t = Fraction(0)
+            for r in range(len(w)):
+                p_ = Fraction(w[r])
+                for n_, A in enumerate(f):
+                    p_ *= Fraction(A[i[n_]][r])
+                t += p_
+            return t
+        if "again" in o:
+            f2 = o["again"]["factors"]
+            if any(A != f2[0] for A in f2) or not o["issym2"]:
+                return "symmetrising the symmetrised Kruskal tensor again: factors not identical / test fails"
+            for i in tgen.all_subs([len(A) for A in a["f"]]):
+                x, y = kden(o["again"]["weights"], f2, i), kden(o["ok"]["weights"], fs, i)
+                if abs(x - y) > Fraction(1, 10 ** 9) * max(1, abs(y)):
+                    return f"symmetrising the symmetrised Kruskal tensor again changed the value at {i}: {float(x)} instead of {float(y)}"
+        if a["kind"] in ("symmetric", "scrambled"):        # an input whose dense value is symmetric keeps its value
             for i in tgen.all_subs([len(A) for A in a["f"]]):
                 x, y = kden(o["ok"]["weights"], fs, i), kden(a["w"], a["f"], i)
                 if abs(x - y) > Fraction(1, 10 ** 9) * max(1, abs(y)):
                     return f"symmetric Kruskal tensor changed value at {i}: {float(x)} instead of {float(y)}"
+        return None
+    if c.op == "chain":
+        shape, perm = a["shape"], a["perm"]
+        avg = sym_avg(shape, a["data"], a["grps"])
+        if [Fraction(x) for x in o["S"]["data"]] != avg:
+            return "first step: the symmetrised tensor is not the (integer) average over the group permutations"
+        pshape = [shape[m] for m in perm]
+        pos = {tuple(s_): k for k, s_ in enumerate(tgen.all_subs(shape))}
+        want = []
+        for i in tgen.all_subs(pshape):
+            j = [0] * len(shape)
+            for k, m in enumerate(perm):
+                j[m] = i[k]
+            want.append(avg[pos[tuple(j)]])
+        pd = [Fraction(x) for x in o["P"]["data"]]
+        if o["P"]["shape"] != pshape or pd != want:
+            return None         # permute itself misbehaves: not this property
+        sym = is_sym(pshape, pd, a["tgrps"])
+        if a["expect_true"] and not o["ok"]:
+            return f"a tensor symmetrised over {a['grps']} and permuted by {perm} does not pass issymmetric({a['tgrps']})"
+        if sym != o["ok"]:
+            return f"issymmetric answered {o['ok']} on a permuted symmetrised tensor that is {'symmetric' if sym else 'not symmetric'} in {a['tgrps']}"
+        avg3 = sym_avg(pshape, pd, a["tgrps"])
+        for k, (w_, g_) in enumerate(zip(avg3, o["S3"]["data"])):
+            if abs(Fraction(g_) - w_) > Fraction(1, 10 ** 9) * max(1, abs(w_)):
+                return f"symmetrising the permuted tensor: entry {tgen.all_subs(pshape)[k]} is {float(Fraction(g_))}, the average is {float(w_)}"
         return None
     groups = groups_of(a)
     shape = a["shape"]
@@ -304,13 +660,19 @@ def oracle(c, o):
         want = is_sym(shape, data, groups)
         return None if want == o["ok"] else f"issymmetric answered {o['ok']}, the tensor is {'symmetric' if want else 'not symmetric'} in {groups}"
     avg = sym_avg(shape, data, groups)
-    for k, (want, got) in enumerate(zip(avg, o["ok"]["data"])):
-        if abs(Fraction(got) - want) > Fraction(1, 10 ** 9) * max(1, abs(want)):
-            return f"entry {tgen.all_subs(shape)[k]} is {float(Fraction(got))}, the average over the group permutations is {float(want)}"
-    if any(abs(Fraction(x) - Fraction(y)) > Fraction(1, 10 ** 9) * max(1, abs(Fraction(y))) for x, y in zip(o["again"]["data"], o["ok"]["data"])):
+    got_all = unscale(a, o["ok"]["data"])
+    again = unscale(a, o["again"]["data"])
+    for k, (want, got) in enumerate(zip(avg, got_all)):
+        if abs(got - want) > Fraction(1, 10 ** 9) * max(1, abs(want)):
+            return f"entry {tgen.all_subs(shape)[k]} is {float(got)} (scale removed), the average over the group permutations is {float(want)}"
+    if any(abs(x - y) > Fraction(1, 10 ** 9) * max(1, abs(y)) for x, y in zip(again, got_all)):
         return "symmetrising twice differs from symmetrising once"
-    if not is_sym(shape, [Fraction(x) for x in o["ok"]["data"]], groups):
+    if not is_sym(shape, got_all, groups):
         return "the symmetrised tensor is not exactly symmetric in the groups"
     if not (o["test_new"] and o["test_old"]):
         return f"the symmetrised tensor does not pass issymmetric (new version: {o['test_new']}, old version: {o['test_old']})"
+    if not o.get("repeat_same", True):
+        return "a second symmetrize call on the same tensor returned a different result"
+    if not o.get("receiver_intact", True):
+        return "writing to the returned tensor changed the receiver: the result shares its data with the (already symmetric) input"
     return None
